@@ -305,7 +305,8 @@ def special_pairs(rng):
     """constructed configurations (coordinates multiples of 6)"""
     u = 6 * rng.choice([1, 1, 2, 5])
     k = rng.choice(['hole_on_edge', 'hole_on_vertex', 'two_holes', 'shared_edge', 'mp_touch', 'empties', 'zero_len', 'line_cross_vertex',
-                    'three_edges', 'gc_cover', 'ring_line', 'hole_on_edge', 'hole_on_edge', 'typed_empty', 'gc_point_outside', 'closed_open_lines', 'line_touch_line'])
+                    'three_edges', 'gc_cover', 'ring_line', 'hole_on_edge', 'hole_on_edge', 'typed_empty', 'gc_point_outside', 'closed_open_lines', 'line_touch_line',
+                    'rect_around', 'rect_around', 'rect_around', 'gc_line_ends', 'gc_line_ends'])
     S = lambda pts: [(x * u, y * u) for x, y in pts]
     if k == 'hole_on_edge':          # F21: a hole touching the interior of a shell edge
         A = ('Polygon', [S([(0, 0), (4, 0), (4, 4), (0, 4), (0, 0)]), S([(2, 0), (3, 1), (1, 1), (2, 0)])])
@@ -375,6 +376,59 @@ def special_pairs(rng):
         A = (rng.choice(['MultiLineString', 'GeometryCollection']), rng.choice([[base, tch], [tch, base]]))
         B = rng.choice([('Polygon', [S([(0, 0), (12, 0), (12, 12), (0, 12), (0, 0)])]), ('LineString', S([(0, 0), (12, 0)])), ('LineString', S([(3, 0), (9, 0)])), ('Polygon', [S([(0, 0), (12, 0), (6, -6), (0, 0)])]),
                         ('Polygon', [S([(0, 0), (12, 0), (6, 6), (0, 0)])]), ('Point', S([(6, 0)])[0]), ('LineString', S([(6, -3), (6, 3)])), ('Polygon', [S([(3, 0), (9, 0), (9, 3), (3, 3), (3, 0)])])])
+    elif k == 'rect_around':         # an axis-parallel rectangle (any ring start / orientation) and elements placed round its corners and sides
+        w, hgt = rng.randint(2, 5), rng.randint(2, 5)
+        ring = S([(0, 0), (w, 0), (w, hgt), (0, hgt)])
+        st = rng.randrange(4)
+        ring = ring[st:] + ring[:st]
+        if rng.random() < 0.5:
+            ring = ring[::-1]
+        A = ('Polygon', [ring + [ring[0]]])
+        def around_corner():
+            cx, sx = rng.choice([(0, -1), (w, 1)]); cy, sy = rng.choice([(0, -1), (hgt, 1)])
+            o1, o2 = rng.randint(1, 3), rng.randint(1, 3)
+            i1, i2 = rng.randint(0, min(3, hgt)), rng.randint(0, min(3, w))
+            g = lambda X, Y: ((cx + sx * X) * u, (cy + sy * Y) * u)        # (outward x, outward y) round that corner
+            p1, pc, p2 = g(o1, -i1), g(o1, o2), g(-i2, o2)
+            c = rng.random()
+            if c < 0.4:
+                return ('LineString', [p1, p2] if rng.random() < 0.5 else [p2, p1])
+            if c < 0.6:
+                return ('LineString', [p1, pc, p2])
+            if c < 0.85:
+                return ('Polygon', [[p1, pc, p2, p1]] if sx * sy > 0 else [[p1, p2, pc, p1]])
+            return ('LineString', [p1, g(0, 0), p2])
+        def on_frame():
+            xs = [x * u for x in range(-2, w + 3)]; ys = [y * u for y in range(-2, hgt + 3)]
+            n = rng.choice([2, 2, 3, 3, 4])
+            pts = []
+            while len(pts) < n:
+                q = (rng.choice(xs), rng.choice(ys))
+                if not pts or q != pts[-1]:
+                    pts.append(q)
+            if n == 4 or (n == 3 and rng.random() < 0.4):
+                return ('Polygon', [pts[:3] + [pts[0]]])
+            return ('LineString', pts)
+        c = rng.random()
+        if c < 0.55:
+            B = around_corner()
+        elif c < 0.8:
+            B = on_frame()
+        elif c < 0.9:
+            B = (rng.choice(['MultiLineString', 'GeometryCollection']), [e for e in (around_corner(), around_corner()) if e[0] == 'LineString'] or [('LineString', S([(-1, -1), (-1, hgt + 1)]))])
+        else:
+            B = ('GeometryCollection', [around_corner(), ('Point', (rng.randint(-1, w + 1) * u, rng.randint(-1, hgt + 1) * u))])
+    elif k == 'gc_line_ends':        # mixed-dimension collection whose point / line elements carry the ends of the other operand's line
+        p, q = S([(0, 0)])[0], S([(rng.choice([3, 4]), rng.choice([0, 2]))])[0]
+        x, y = S([(rng.choice([2, -3]), rng.choice([3, 4]))])[0], S([(rng.choice([4, 5]), rng.choice([4, -2]))])[0]
+        far = rng.choice([('Polygon', [S([(30, 30), (33, 30), (33, 32), (30, 32), (30, 30)])]), ('LineString', S([(-30, -30), (-28, -29)])),
+                          ('Polygon', [S([(30, 30), (33, 30), (33, 32), (30, 32), (30, 30)])]), ('LineString', [q, S([(9, 9)])[0]]), ('LineString', [S([(-6, 0)])[0], p])])
+        els = [('Point', p), far] + ([('Point', q)] if rng.random() < 0.5 else []) + ([('Point', x)] if rng.random() < 0.25 else [])
+        rng.shuffle(els)
+        A = ('GeometryCollection', els)
+        B = rng.choice([('LineString', [p, x, y, p]), ('LineString', [p, x, p]), ('LineString', [p, q]), ('LineString', [p, x, q]), ('LineString', [q, x, y, q]),
+                        ('LineString', [p, x]), ('LineString', [x, p, y]), ('LineString', [p, x, y, p, x]), ('MultiLineString', [('LineString', [p, x]), ('LineString', [q, y])]),
+                        ('LineString', [p, q, p]), ('LineString', [p, x, y, q]), ('MultiLineString', [('LineString', [p, x, p]), ('LineString', [q, y, q])]), ('LineString', [x, y, x])])
     elif k == 'zero_len':
         A = rng.choice([('LineString', S([(1, 1), (1, 1)])), ('MultiLineString', [('LineString', S([(1, 1), (1, 1)])), ('LineString', S([(2, 2), (2, 2), (2, 2)]))]),
                         ('MultiLineString', [('LineString', S([(1, 1), (1, 1)])), ('LineString', S([(0, 0), (2, 2)]))]),
